@@ -82,5 +82,5 @@ ComposeDef(sr, G, Tm, y, L) ==
 (* every arc that reads input also writes output: |x| <= |y|, so the bound |y| is exact *)
 NoDeletion(Tm) == \A r \in DOMAIN Tm.arcs : Tm.arcs[r][2] # EPS => Tm.arcs[r][3] # EPS
 
-ComposeExact(sr, G, Tm) == IsIntSR(sr) \/ (InsideExact(sr, G) /\ TAcyclic(Tm) /\ ~HasCycle(DepEdges(G)))
+ComposeExact(sr, G, Tm) == IsFinSR(sr) \/ (InsideExact(sr, G) /\ TAcyclic(Tm) /\ ~HasCycle(DepEdges(G)))
 =============================================================================
